@@ -17,7 +17,7 @@ or any other `/tmp/seed_*` directory.  Do not use the network.  Do not commit.
 
 It is claimed to hold: {quant}
 
-## What to deliver
+{used}## What to deliver
 TWO independent source changes (A and B) to files under `{wt}/rsome/`, each of which
 1. makes rsome violate the property above for some inputs / call histories,
 2. keeps the package importable and keeps the repository's own test suite passing (all tests that pass without the
@@ -57,7 +57,14 @@ def main():
         p = json.loads(l)
         if p['id'] == pid:
             break
-    txt = TEMPLATE.format(wt=wt, pid=pid, title=p['title'], statement=p['statement'], quant=p['quantifier']['text'])
+    used = ''
+    if len(sys.argv) > 3:
+        u = json.load(open(sys.argv[3])).get(pid, [])
+        if u:
+            used = ('## Changes already used in an earlier round - choose DIFFERENT mechanisms (other functions, other kinds of trigger)\n'
+                    + ''.join('* %s\n' % x for x in u) + '\n')
+    txt = TEMPLATE.format(wt=wt, pid=pid, title=p['title'], statement=p['statement'], quant=p['quantifier']['text'],
+                          used=used)
     open(wt + '/_TASK.md', 'w').write(txt)
     print('wrote', wt + '/_TASK.md')
 
